@@ -4,6 +4,7 @@ CONSTANTS
  Variants <- TVariants
  NBk <- TNBk
  Inits <- TInits
+ InoutInits <- TInits
  RouteInits <- TInits
  Runs <- TRuns
  QueuePersists = TRUE
@@ -17,6 +18,7 @@ CONSTANTS
  DevSeqOpenEarly = FALSE
  DevLinkDirect = FALSE
  DevBackupCount = FALSE
+ DevInplaceInput = FALSE
  DevRouteDiscard = FALSE
 INVARIANT NoEarlyEffect
 INVARIANT SuccessState
